@@ -26,7 +26,7 @@ for c in $CHECKS; do
   rm -f /verif/replays/$c-1-quick.json /verif/replays/$c-1-thorough.json
   r=$(cd /verif && VERIF_REPO=$WT timeout 3000 ./check $c quick 2>&1 | grep -E "VIOLATION" | head -2)
   tier=quick
-  if ! echo "$r" | grep -q VIOLATION; then r=$(cd /verif && VERIF_REPO=$WT timeout 7200 ./check $c thorough 2>&1 | grep -E "VIOLATION" | head -3); tier=thorough; fi
+  if ! echo "$r" | grep -q VIOLATION && [ -z "${SEED_QUICK_ONLY:-}" ]; then r=$(cd /verif && VERIF_REPO=$WT timeout 7200 ./check $c thorough 2>&1 | grep -E "VIOLATION" | head -3); tier=thorough; fi
   RES[$c]="$tier: ${r:-no violation reported}"
   echo "== check $c -> ${RES[$c]}"
   [ -f /verif/replays/$c-1-$tier.json ] && cp /verif/replays/$c-1-$tier.json $OUT/replay-$c.json
